@@ -34,7 +34,7 @@ ToSeqOfMods(x) == x       \* JSON arrays deserialize to sequences (tuples); <<>>
 
 TraceInit == /\ imports = [m \in User |-> <<>>] /\ nlits = [m \in User |-> 0] /\ missing = {}
              /\ ndiag = [m \in User |-> 0] /\ bag = <<>> /\ round = 1 /\ past = <<>>
-             /\ seen = {} /\ pc = [m \in Mods |-> "idle"] /\ idx = [m \in Mods |-> 1]
+             /\ seen = {} /\ by = [m \in Mods |-> G] /\ pc = [m \in Mods |-> "idle"] /\ idx = [m \in Mods |-> 1]
              /\ litsLeft = [m \in Mods |-> 0] /\ registry = {G}
              /\ depGraph = [m \in Mods |-> <<>>] /\ errs = <<>> /\ wg = 0 /\ ctr = 0
              /\ names = [m \in Mods |-> <<>>] /\ mainpc = "spawnG" /\ sorted = <<>> /\ hist = <<>>
@@ -49,7 +49,7 @@ TReset == /\ IsEvent("Reset")
           /\ ndiag' = [m \in User |-> IF "ndiag" \in DOMAIN Ev /\ m \in DOMAIN Ev.ndiag THEN Ev.ndiag[m] ELSE 0]
           /\ bag' = <<>> /\ UNCHANGED past
           /\ round' = IF "id" \in DOMAIN Ev THEN Ev.id ELSE 0      \* run identifier (trace mode)
-          /\ seen' = {} /\ pc' = [m \in Mods |-> "idle"] /\ idx' = [m \in Mods |-> 1]
+          /\ seen' = {} /\ by' = [m \in Mods |-> G] /\ pc' = [m \in Mods |-> "idle"] /\ idx' = [m \in Mods |-> 1]
           /\ litsLeft' = [m \in Mods |-> 0] /\ registry' = {G}
           /\ depGraph' = [m \in Mods |-> <<>>] /\ errs' = <<>> /\ wg' = 0 /\ ctr' = 0
           /\ names' = [m \in Mods |-> <<>>] /\ mainpc' = "spawnG" /\ sorted' = <<>> /\ hist' = <<>>
